@@ -158,7 +158,10 @@ def run_indicator_task(source, contracts, loops, spec, variant, natives=None, ti
                 st.qassumes.append(QAssume(contiguous, f"input-contiguous:{xname}"))
             N = env["N"]
             # Inv(j) for j < i ; own key present below i and absent from i on
-            for label, (src, _props) in spec.inv.items():
+            for label, tup in spec.inv.items():
+                src = tup[0]
+                if len(tup) > 2 and not tup[2].get("assume", True):
+                    continue  # goal-only clause: proved at i, not needed as a hypothesis below i
                 fn = (lambda j, src=src: SpecEval(ex, st, dict(env, j=SInt(j))).ev(src))
                 st.qassumes.append(QAssume(lambda j, fn=fn: z3.Implies(z3.And(j >= 0, j < i), vals.zbool(vals.truthy_term(fn(j), st.heap))), f"Inv:{label}"))
             for label, src in spec.prior.items():
@@ -193,7 +196,8 @@ def run_indicator_task(source, contracts, loops, spec, variant, natives=None, ti
                 if sig[0] not in ("next", "continue"):
                     raise Unsupported(f"signal {sig[0]} out of the driver loop body")
                 ser1 = st1.heap[env["c"].oid]
-                for label, (src, props) in spec.inv.items():
+                for label, tup in spec.inv.items():
+                    src, props = tup[0], tup[1]
                     ev1 = SpecEval(ex, st1, dict(env, j=SInt(i)), old)
                     oblige_spec(ex, st1, "inv-preserve", label, ev1.ev(src), loop, props=props or None)
                 ctx.oblige(st1, "inv-preserve", "own-key-written", ser1.has(which, N, i), loop)
